@@ -50,10 +50,10 @@ claim("C07",
       "of per-node matcher outcomes (symbolic label values) and continue flags; option inheritance is checked for all presence profiles with symbolic timer values.",
       "Bounds: <=5 nodes, depth <=4, 9 (quick) / 13 (thorough) shapes; inheritance over a 3-level chain plus sibling. Regexp engine and YAML are outside. " + TRUSTED, "4 C07")
 claim("C08",
-      "2-3 instances hold the same firing group; each runs the receiver's real stage (ClusterWait with position x peer_timeout, Dedup against its own real nflog, Retry, SetNotifies) as goroutines on a virtual clock and "
+      "2 instances hold the same firing group; each runs the receiver's real stage (ClusterWait with position x peer_timeout, Dedup against its own real nflog, Retry, SetNotifies) as goroutines on a virtual clock and "
       "gossips its log entry to the others with a symbolic delay or loses it; one instance may die right after the receiver accepted, before recording. Decided: at least one notification under every loss/delay/crash pattern; "
       "exactly one when every entry arrives faster than peer_timeout, nobody crashes and later positions do not flush earlier; an instance never sends twice. After a partition, one full-state message (MarshalBinary->Merge) makes the second instance silent for every group the first already notified.",
-      "Bounds: 2 instances (quick) / 3 (thorough), one group, one flush round, delays 0..40 s, skew 0..20 s. memberlist, partitions beyond loss/delay of single entries, Settle, the position computation from the member list and "
+      "Bounds: 2 instances (preemption bound 0 quick / 1 thorough), one group, one flush round, delays 0..40 s, skew 0..20 s. memberlist, partitions beyond loss/delay of single entries, Settle, the position computation from the member list and "
       "the flush-timeout extension in app.setup are outside. " + TRUSTED, "4 C08")
 claim("C09",
       "Bounded symbolic model checking of the real silence merge code: inductive merge step from an arbitrary pre-state, delivery-order/batching/duplication convergence "
